@@ -24,7 +24,7 @@ DOC = {
  "C09.R8": "internal_call: the send result is checked (`sent?`) before the reply is awaited (a refused message keeps its reply port alive, so waiting would hang); build+send happen once before the wait block",
  "C09.R9": "multi_call: each send result is tested and on the refused edge nothing is awaited or spawned before returning (the refused message keeps that callee's reply port alive)",
  "C09.R10": "exported macros, analysed where expanded (witness/derive::rpc_macros, built against /repo's macros): every call_t!/forward! arm passes its timeout as Some(duration) to the call; call!/untimed forward! pass None",
- "C09.R7": "= C08.R5 / C07.R6: exiting actors flush queued requests (closing their reply ports); refused sends hand the message (with its port) back",
+ "C09.R7": "= C08.R5 / C07.R6 / C03.R6: exiting actors flush queued requests (closing their reply ports); refused sends hand the message (with its port) back",
 }
 
 WAITERS = r"^ractor::rpc::(internal_call|multi_call|call_and_forward)"
@@ -365,6 +365,10 @@ def r7(run, db):
     c08.r5(run, db)
     from . import c07
     c07.r6(run, db)
+    # a kill / stop of the callee is always delivered (whatever its status): otherwise queued requests of a callee that is
+    # stuck in post_stop are never flushed and an untimed caller hangs
+    from . import c03
+    c03.r6(run, db)
 
 
 Q = ["dflt", "rc"]
